@@ -82,8 +82,13 @@ def plan_for(pid, tier):
     if pid == "C10":
         common.update(life_module="BuildPool", life_cfg="BuildPoolQ.cfg" if q else "BuildPool.cfg", replay_args=["-nogc"], attr_all=True,
                       invariants=["BuildIndependent", "AllWF"])
+    P["C14"] = [("vec", 24 if q else 250, 5)]
+    P["C15"] = [("vec", 30 if q else 300, 10)]
+    if pid in ("C14", "C15"):
+        common["life_cfg"] = "LifeVecQ.cfg" if q else "LifeVec.cfg"
+        common["tags"] = ("verif", "vectors")
     common["walks"] = 500 if q else 8000
-    common["walk_bias"] = "merge" if pid in ("C05", "C06", "C13") else "build"
+    common["walk_bias"] = "merge" if pid in ("C05", "C06", "C13", "C15") else "build"
     if pid == "C03":
         import compcheck
         common["pre"] = compcheck.dvvisit_stage
